@@ -10,15 +10,20 @@ from . import register
 def with_replicas(h, r, reps=3):
     """the same history on `reps` independent replicas with different local tuning (proof verification serial / parallel); replica 0 is stopped and reopened at random places, the others never are"""
     ops = []
+    # every second history also runs one more replica through the executor's own goroutine pipeline (pre-execution stage,
+    # execution stage), handed each block without waiting for the previous one
+    pipe = r.random() < 0.5
     for o in h.ops:
         if o.startswith("world"):
-            o = o + f" replicas={reps} mix=1"
+            o = o + f" replicas={reps} mix=1" + (" pipe=1" if pipe else "")
         if o == "restart":
             o = "restart 0"
         ops.append(o)
         if o.startswith("block") and r.random() < 0.12:
             ops.append("restart 0")
-    return History(ops, tags=set(h.tags) | {"replicas"})
+    if pipe:
+        ops.append("q height")        # waits for the pipelined replica and compares its last block
+    return History(ops, tags=set(h.tags) | {"replicas"} | ({"pipelined-replica"} if pipe else set()))
 
 
 def gen(rng, n, tier):
@@ -75,7 +80,8 @@ register(PropSpec(
     facts=["mapRanges"],
     engines=[EngineSpec("exec", gen, mon, tags, quick_n=180, thorough_n=3000, mask=mon_exec.mask_unmodelled, timeout=1800)],
     rule="exec engine, 3 replicas of one network with different local tuning (proof verification serial/parallel), the same "
-         "ordered blocks on each; replica 0 is stopped and reopened at random places; traffic of every generator of the framework (mixed interchain, "
+         "ordered blocks on each; replica 0 is stopped and reopened at random places; in every second history one more replica runs the executor's own "
+         "goroutine pipeline (Start / ExecuteBlock: pre-execution stage and execution stage overlap, two blocks in flight) and is compared one block later; traffic of every generator of the framework (mixed interchain, "
          "one-to-many groups, fee-starved failures, proof kinds, every contract method by every role, malformed transactions); every block line "
          "(receipts, delivery / timeout / multi-tx metadata, block hash, state / tx / receipt / timeout roots) must be equal on all replicas and equal "
          "to the Lean model where the model covers it; non-trivial = at least one block on >= 2 replicas",
